@@ -356,6 +356,16 @@ def run_shard(spec):
             os.makedirs(outside)
             gen_tree(rng, src)
             add_symlinks(rng, src, outside)
+            if ci % 6 == 1:
+                # entries whose names merely begin with dots, and absolute links into them: still inside the tree
+                dd = os.path.join(src, "..cache", "v1")
+                os.makedirs(dd)
+                write_file(rng, os.path.join(dd, "blob"))
+                write_file(rng, os.path.join(src, "..."))
+                for k_, tgt in enumerate((dd, os.path.join(src, "..."), os.path.join(src, "..cache"), os.path.join(dd, "blob"))):
+                    os.symlink(tgt, os.path.join(src, f"lnk-dots-{k_}"))
+                os.symlink(os.path.join("..cache", "v1"), os.path.join(src, "lnk-dots-rel"))
+                res.count("trees_with_dot_dot_names")
             ntargets = rng.choice((1, 1, 2, 3))
             delete = rng.random() < 0.5
             dsts = [os.path.join(case, f"target{t}", "dest") for t in range(ntargets)]
